@@ -8,7 +8,7 @@ FAMILY = "kv"
 STREAMS = {
     "kv": {"quick": 4000, "thorough": 100000, "trivial": ["bad-op", "nostore", "nosnap", "noflushable"], "timeout": 3600},
     "kvflush": {"quick": 6000, "thorough": 120000, "trivial": ["bad-op", "nostore", "nosnap", "noflushable"], "timeout": 3600},
-    "kvtable": {"quick": 4000, "thorough": 100000, "trivial": ["bad-op", "nostore", "nosnap", "noflushable"], "timeout": 3600},
+    "kvtable": {"quick": 4000, "thorough": 80000, "trivial": ["bad-op", "nostore", "nosnap", "noflushable"], "timeout": 3600},
 }
 
 _TRUSTED_COMMON = [
